@@ -517,7 +517,7 @@ def oracle_c12(case: dict[str, Any], res: dict[str, Any]) -> list[tuple[str, str
                 # a node that runs several times (Alarm body) has one set of node flags but one item per invocation
                 rep = ":repeated-node" if r.get("invocations", 1) > 1 or r.get("node_reset") else ""
                 concl = ":concluded" if item[2] in ("completed", "cancelled", "failed") else ""
-                out.append((f"unoffered-{op}-accepted:{site}{concl}{rep}", what + " was accepted"))
+                out.append((f"unoffered-{op}-accepted:{site}{rep or concl}", what + " was accepted"))
             elif not same:
                 out.append((f"rejected-{op}-changed-state:{site}", what))
             continue
